@@ -183,6 +183,22 @@ class Prop(common.PropertyCheck):
         out['range_after'] = [[float(x) for x in d.range(c)] for c in cols]
         out['nb'] = [(nb[i] if isinstance(nb, list) else nb) for i in range(len(cols))] if nb_plain is None else list(nb_plain)
         out['scales'] = [(sc[i] if isinstance(sc, list) else sc) for i in range(len(cols))]
+        # the caller owns the returned edges: overwriting them (e.g. opening the outer bins to infinity) does not reach later answers, and the answers
+        # for several channels are separate arrays
+        try:
+            if len(edges) >= 2 and any(np.shares_memory(np.asarray(edges[i]), np.asarray(edges[j])) for i in range(len(edges)) for j in range(i)):
+                out['edges_shared'] = 'the edge arrays returned for several channels share memory'
+            returned = edges
+            edges = [np.array(x, dtype=float, copy=True) for x in returned]          # (what the rest of this check works on)
+            for x in returned:
+                if isinstance(x, np.ndarray) and x.flags.writeable and x.size:
+                    x[0] = -np.inf; x[-1] = np.inf
+            e2 = self.sample(case).hist_bins(ch, nb, sc, **kw)
+            edges2 = [e2] if scalar else list(e2)
+            if [[bits(v) for v in np.asarray(x, dtype=float)] for x in edges2] != out['edges']:
+                out['edges_shared'] = 'after the caller overwrote the edges it was given, the same query on a fresh sample returns other edges'
+        except Exception as ex:
+            out['edges_shared'] = 'second query raised %s' % type(ex).__name__
         # per-channel answers on fresh objects
         per = []
         tms = []
@@ -266,6 +282,8 @@ class Prop(common.PropertyCheck):
             for nm, w, g in zip('TMW', v[:3], v[3:]):
                 if common.far(g, w, 2e-6 * max(1.0, abs(w))):
                     return 'logicle parameter %s used for the bins of channel %s is %r, the documented rule gives %r (overrides %s)' % (nm, impl['cols'][int(i)], g, w, case['over'])
+        if impl.get('edges_shared'):
+            return '%s scale, channels %s: %s' % (case['scale'], case['chform'], impl['edges_shared'])
         if impl.get('history_ok') not in (None, True):
             return 'a second hist_bins query on the same object with other %s values differs from the same query on a fresh object (%s)' % (case['over'], impl['history_ok'])
         if impl['range_after'] != impl['ranges']:
